@@ -74,12 +74,58 @@ class ClassInfo:
         self.class_attrs = {}  # name -> value node
 
 
+_NEG_CMP = {ast.NotEq: ast.Eq, ast.IsNot: ast.Is, ast.NotIn: ast.In}
+
+
+def _positive(test):
+    """(test', flipped): strip negations from a condition - `not c`, `a != b`, `a is not b`, `a not in b` become their
+    positive counterparts and the caller swaps the two alternatives"""
+    flipped = False
+    for _ in range(8):
+        if isinstance(test, ast.UnaryOp) and isinstance(test.op, ast.Not):
+            test = test.operand
+            flipped = not flipped
+        elif isinstance(test, ast.Compare) and len(test.ops) == 1 and type(test.ops[0]) in _NEG_CMP:
+            new = ast.Compare(left=test.left, ops=[_NEG_CMP[type(test.ops[0])]()], comparators=test.comparators)
+            ast.copy_location(new, test)
+            test = new
+            flipped = not flipped
+        else:
+            break
+    return test, flipped
+
+
+class _CanonicalBranches(ast.NodeTransformer):
+    """Two-way alternatives are put into one orientation before any rule looks at them: `if not c: A else: B` is read as
+    `if c: B else: A` (likewise for !=, is not, not in, and for conditional expressions).  Guards without an else and
+    elif chains keep their form.  Rules therefore never depend on which way round an alternative is written."""
+
+    def visit_If(self, node):
+        self.generic_visit(node)
+        two_way = node.orelse and not (len(node.orelse) == 1 and isinstance(node.orelse[0], ast.If))
+        if two_way:
+            test, flipped = _positive(node.test)
+            if flipped:
+                node.test = test
+                node.body, node.orelse = node.orelse, node.body
+        return node
+
+    def visit_IfExp(self, node):
+        self.generic_visit(node)
+        test, flipped = _positive(node.test)
+        if flipped:
+            node.test = test
+            node.body, node.orelse = node.orelse, node.body
+        return node
+
+
 class ModuleInfo:
     def __init__(self, name, relpath, src):
         self.name = name
         self.relpath = relpath
         self.src = src
-        self.tree = ast.parse(src, filename=relpath)
+        self.tree = _CanonicalBranches().visit(ast.parse(src, filename=relpath))
+        ast.fix_missing_locations(self.tree)
         self.imports = {}     # alias -> dotted target
 
 
